@@ -8,5 +8,7 @@ From Chess3 Require Export Model.TimeCtl.
 From Chess3 Require Export Model.BoardDef.
 From Chess3 Require Export Model.BoardStreams.
 From Chess3 Require Export Spec.ChessJudge.
+From Chess3 Require Export Spec.PerftSpec.
+From Chess3 Require Export Spec.C01Judge.
 
 Extraction Language OCaml.
